@@ -388,6 +388,10 @@ pub fn directed_programs() -> Vec<String> {
 
 fn call_graph_programs() -> Vec<String> {
     vec![
+        // the only use of a global / the only call of a function with inout parameters sits inside index brackets
+        "static uint gi = 1u;\nstatic int table[4] = { 10, 20, 30, 40 };\nuint pick() { gi += 1u; return gi; }\nint only_in_index(int x) { int a[4] = { 1, 2, 3, 4 }; return a[gi & 3u] + x; }\nint call_in_index(int x) { int a[4] = { 5, 6, 7, 8 }; return a[pick() & 3u] + x; }\nint global_table(int x) { return table[(uint)x & 3u]; }\n".to_string(),
+        "uint bump(inout uint a, inout uint b) { a += 1u; b += 20u; return a + b; }\nint inout_in_index(int x) { int a[4] = { 1, 2, 3, 4 }; uint v = (uint)x & 1u; return a[bump(v, v) & 3u] * 100 + (int)v; }\n".to_string(),
+        "static int gm[3] = { 1, 2, 3 };\nstatic uint gk = 2u;\nint nested_index(int x) { return gm[(uint)gm[gk % 3u] % 3u] + x; }\nint write_index(int x) { gm[gk % 3u] = x; return gm[2]; }\n".to_string(),
         // transitive use through a chain; a function that does not need the global sits in between
         "static int g0 = 1;\nstatic float g1 = 2.0f;\ngroupshared float lds[4];\nint leaf(int x) { g0 += x; return g0; }\nint mid(int x) { return leaf(x) + 1; }\nint pure(int x) { return x * 2; }\nint top(int x) { lds[0] = (float)x; g1 = lds[0] + g1; return mid(pure(x)) + (int)g1; }\nint only_pure(int x) { return pure(x) + pure(x + 1); }\n".to_string(),
         // inout aliasing with a global the callee also reads
